@@ -29,54 +29,62 @@ import (
 type shape struct {
 	Name string
 	Src  string
+	Pre  string // mode "cross" only: what the earlier invocation, under another context, ran
 }
 
 func mainShapes() []shape {
 	return []shape{
-		{"simple-loop", "for { tick() }"},
-		{"cond-loop", "i := 0\nfor i >= 0 { i++\n tick() }"},
-		{"three-part-loop", "for i := 0; i >= 0; i++ { tick() }"},
-		{"range-loop", "for i := range 1000000000 { tick() }"},
-		{"for-in-loop", "for v in 1000000000 { tick() }"},
-		{"empty-loop", "for { }"},
-		{"mutual-recursion", "func a() { for { b() } }\nfunc b() { tick() }\na()"},
-		{"deep-recursion", "func r(n) { tick()\n if n > 400 { for { tick() } }\n return r(n + 1) }\nr(0)"},
-		{"recv-blocked", "ch := chan()\n<-ch"},
-		{"recv-method-blocked", "ch := chan()\nch.receive()"},
-		{"send-blocked", "ch := chan()\nch <- 1"},
-		{"range-chan-blocked", "ch := chan()\nfor v in ch { tick() }"},
-		{"wait-blocked", "t := spawn(func() { c := chan()\n <-c })\nt.wait()"},
+		{Name: "simple-loop", Src: "for { tick() }"},
+		{Name: "cond-loop", Src: "i := 0\nfor i >= 0 { i++\n tick() }"},
+		{Name: "three-part-loop", Src: "for i := 0; i >= 0; i++ { tick() }"},
+		{Name: "range-loop", Src: "for i := range 1000000000 { tick() }"},
+		{Name: "for-in-loop", Src: "for v in 1000000000 { tick() }"},
+		{Name: "empty-loop", Src: "for { }"},
+		{Name: "mutual-recursion", Src: "func a() { for { b() } }\nfunc b() { tick() }\na()"},
+		{Name: "deep-recursion", Src: "func r(n) { tick()\n if n > 400 { for { tick() } }\n return r(n + 1) }\nr(0)"},
+		{Name: "recv-blocked", Src: "ch := chan()\n<-ch"},
+		{Name: "recv-method-blocked", Src: "ch := chan()\nch.receive()"},
+		{Name: "send-blocked", Src: "ch := chan()\nch <- 1"},
+		{Name: "range-chan-blocked", Src: "ch := chan()\nfor v in ch { tick() }"},
+		{Name: "wait-blocked", Src: "t := spawn(func() { c := chan()\n <-c })\nt.wait()"},
 		// waiting, in a later invocation with its own context, for a thread that an earlier invocation
 		// started under another context (mode "cross" only): the cancellation of the waiter's context
 		// ends the wait although nothing ends the thread
-		{"wait-on-thread-of-an-earlier-run", "t.wait()"},
-		{"sleep", "time.sleep(3600)"},
-		{"loop-in-map-callback", "[1, 2, 3].map(func(x) { for { tick() } })"},
-		{"loop-in-each-callback", "[1, 2].each(func(x) { for { tick() } })"},
-		{"loop-in-filter-callback", "[1, 2].filter(func(x) { for { tick() } })"},
-		{"loop-in-sorted-callback", "sorted([2, 1, 3], func(a, b) { for { tick() } })"},
-		{"loop-in-try", "try(func() { for { tick() } })\nfor { tick() }"},
-		{"blocked-in-try", "ch := chan()\ntry(func() { <-ch }, func(e) { 1 })\nfor { tick() }"},
-		{"loop-in-call", "call(func() { for { tick() } })"},
+		{Name: "wait-on-thread-of-an-earlier-run", Src: "t.wait()", Pre: "t := spawn(func() { c := chan()\n <-c })"},
+		// the same for everything else that can be carried from one invocation to the next: a channel, an
+		// iterator that the earlier invocation has already advanced, a closure
+		{Name: "receive-blocked-on-channel-of-an-earlier-run", Src: "<-ch", Pre: "ch := chan()"},
+		{Name: "send-blocked-on-channel-of-an-earlier-run", Src: "ch <- 1", Pre: "ch := chan()"},
+		{Name: "range-blocked-on-iterator-of-an-earlier-run", Src: "for v := range it { tick() }", Pre: "ch := chan(1)\nit := iter(ch)\nch <- 1\nfor v := range it { break }"},
+		{Name: "for-in-blocked-on-channel-iterated-by-an-earlier-run", Src: "for v in ch { tick() }", Pre: "ch := chan(2)\nch <- 1\nfor v in ch { break }"},
+		{Name: "loop-in-closure-of-an-earlier-run", Src: "f()", Pre: "f := func() { for { tick() } }"},
+		{Name: "sleep", Src: "time.sleep(3600)"},
+		{Name: "loop-in-map-callback", Src: "[1, 2, 3].map(func(x) { for { tick() } })"},
+		{Name: "loop-in-each-callback", Src: "[1, 2].each(func(x) { for { tick() } })"},
+		{Name: "loop-in-filter-callback", Src: "[1, 2].filter(func(x) { for { tick() } })"},
+		{Name: "loop-in-sorted-callback", Src: "sorted([2, 1, 3], func(a, b) { for { tick() } })"},
+		{Name: "loop-in-try", Src: "try(func() { for { tick() } })\nfor { tick() }"},
+		{Name: "blocked-in-try", Src: "ch := chan()\ntry(func() { <-ch }, func(e) { 1 })\nfor { tick() }"},
+		{Name: "loop-in-call", Src: "call(func() { for { tick() } })"},
 	}
 }
 
 // child prefixes: code placed before the main shape that starts goroutines
 func childPrefixes(thorough bool) []shape {
 	out := []shape{
-		{"no-children", ""},
-		{"go-looping-child", "go func() { for { tick() } }()\n"},
-		{"spawn-looping-child", "spawn(func() { for { tick() } })\n"},
-		{"fnspawn-looping-child", "func lp() { for { tick() } }\nlp.spawn()\n"},
-		{"spawn-blocked-child", "spawn(func() { c := chan()\n <-c })\n"},
-		{"nested-2", "spawn(func() { spawn(func() { for { tick() } })\n for { tick() } })\n"},
+		{Name: "no-children", Src: ""},
+		{Name: "go-looping-child", Src: "go func() { for { tick() } }()\n"},
+		{Name: "spawn-looping-child", Src: "spawn(func() { for { tick() } })\n"},
+		{Name: "fnspawn-looping-child", Src: "func lp() { for { tick() } }\nlp.spawn()\n"},
+		{Name: "spawn-blocked-child", Src: "spawn(func() { c := chan()\n <-c })\n"},
+		{Name: "nested-2", Src: "spawn(func() { spawn(func() { for { tick() } })\n for { tick() } })\n"},
 	}
 	if thorough {
 		out = append(out,
-			shape{"nested-3", "spawn(func() { spawn(func() { go func() { for { tick() } }()\n c := chan()\n <-c })\n for { tick() } })\n"},
-			shape{"two-children", "spawn(func() { for { tick() } })\ngo func() { c := chan()\n <-c }()\n"},
-			shape{"child-sleeps", "spawn(func() { time.sleep(3600) })\n"},
-			shape{"child-in-callback", "spawn(func() { [1].map(func(x) { for { tick() } }) })\n"},
+			shape{Name: "nested-3", Src: "spawn(func() { spawn(func() { go func() { for { tick() } }()\n c := chan()\n <-c })\n for { tick() } })\n"},
+			shape{Name: "two-children", Src: "spawn(func() { for { tick() } })\ngo func() { c := chan()\n <-c }()\n"},
+			shape{Name: "child-sleeps", Src: "spawn(func() { time.sleep(3600) })\n"},
+			shape{Name: "child-in-callback", Src: "spawn(func() { [1].map(func(x) { for { tick() } }) })\n"},
 		)
 	}
 	return out
@@ -126,7 +134,7 @@ func (c caseT) name() string {
 
 // runReused performs the evaluation of src as a later invocation on a VM that has already been
 // used with the same context.
-func runReused(st *state, src, mode string) rt.Outcome {
+func runReused(st *state, src, mode, pre string) rt.Outcome {
 	var o rt.Outcome
 	first, o1 := st.env.Compile("1")
 	if first == nil {
@@ -139,7 +147,7 @@ func runReused(st *state, src, mode string) rt.Outcome {
 	runCtx := st.ctx
 	if mode == "cross" {
 		// the first RunCode runs under a context of its own that is never cancelled during the scenario
-		body = "t := spawn(func() { c := chan()\n <-c })\nfunc entry() {\n" + src + "\n}\n0"
+		body = pre + "\nfunc entry() {\n" + src + "\n}\n0"
 		var stop context.CancelFunc
 		runCtx, stop = context.WithCancel(context.Background())
 		st.ctxA, st.cleanup = runCtx, stop
@@ -221,7 +229,7 @@ func (c caseT) scenario() *dsched.Scenario {
 				}),
 			})
 			if c.Mode != "" {
-				st.out = runReused(st, src, c.Mode)
+				st.out = runReused(st, src, c.Mode, c.Main.Pre)
 				atomic.StoreInt32(&st.returned, 1)
 				if st.cleanup != nil {
 					x.Cancel(st.ctxA, st.cleanup) // the thread of the earlier invocation is not this scenario's subject
@@ -291,8 +299,10 @@ func (c caseT) judge(x *dsched.Exec, st *state) (violation, key string) {
 		return "the evaluation did not return after its context was cancelled: " + describe(x), "main-not-returned"
 	}
 	if st.out.Stage == "ok" {
-		// the program ended by itself before the cancel could matter (only possible for terminating shapes)
-		return "", key + " finished"
+		// no main shape ends by itself: an evaluation that returns without an error has taken the cancellation
+		// for the end of what it was blocked in (a sleep, a loop over a channel) and finished before the
+		// halt flag was set. The statement wants the context's error.
+		return "the evaluation returned without an error although it can only have ended because its context was cancelled", key + " finished"
 	}
 	if !errors.Is(st.out.Err, context.Canceled) && st.out.ErrText != context.Canceled.Error() {
 		return fmt.Sprintf("the evaluation returned %q instead of the context's error", st.out.ErrText), key
@@ -365,7 +375,7 @@ func Check(r *ev.Run, replay string) {
 					continue
 				}
 				modes := []string{"", "rerun", "call"}
-				if mn.Name == "wait-on-thread-of-an-earlier-run" {
+				if mn.Pre != "" {
 					if ci != 0 {
 						continue
 					}
@@ -456,7 +466,7 @@ func signature(ch, mn shape, v string) string {
 		kind = "blocked-forever"
 	case strings.Contains(v, "did not return"):
 		kind = "no-return"
-	case strings.Contains(v, "instead of the context's error"):
+	case strings.Contains(v, "instead of the context's error"), strings.Contains(v, "returned without an error"):
 		kind = "wrong-error"
 	case strings.Contains(v, "halt flag"):
 		kind = "not-prompt"
